@@ -56,12 +56,22 @@ fn handle_client(stream: TcpStream, dbs: Arc<Databases>) {
     let (mut client, mut receiver) = Client::new_empty_and_receiver();
     writer.write_fmt(format_args!("ok \n")).unwrap();
     writer.flush().unwrap();
+    // The socket is non-blocking: a command that arrives in more than one segment is read in
+    // pieces (WouldBlock in between), so the bytes read so far are kept until the line is complete
+    let mut line: Vec<u8> = Vec::new();
     loop {
-        let mut buf = String::new();
-        let read_line = reader.read_line(&mut buf);
+        let read_line = reader.read_until(b'\n', &mut line);
         stream.set_nonblocking(true).unwrap();
         match read_line {
             Ok(_) => {
+                let buf = match String::from_utf8(std::mem::take(&mut line)) {
+                    Ok(buf) => buf,
+                    Err(_) => {
+                        // Not UTF-8: the line is dropped
+                        process_message(&mut receiver, writer);
+                        continue;
+                    }
+                };
                 log::debug!("Command print: {}", clean_string_to_log(&buf, &dbs));
                 match buf.as_ref() {
                     "" => {
